@@ -11,6 +11,7 @@ import (
 	"errors"
 	"flag"
 	"fmt"
+	"runtime"
 	"sort"
 	"sync"
 	"sync/atomic"
@@ -90,7 +91,18 @@ func concFlight(args []string, out *bufio.Writer) {
 		r := &rng{s: scriptSeed(*seed, "concflight", i)}
 		fmt.Fprintf(out, "script concflight-%d-%d\n", *seed, i)
 		counter := stats.NewCounter()
-		c := otter.Must(&otter.Options[int, int]{Logger: nopLogger{}, StatsRecorder: counter})
+		fo := &otter.Options[int, int]{Logger: nopLogger{}, StatsRecorder: counter}
+		if i%3 == 0 {
+			// a weigher that takes its time: it runs inside the critical section that installs a loaded value, so everything
+			// the leader does before that (releasing the waiters, say) gets ahead of the installation by a visible margin
+			fo.MaximumWeight = 1 << 40
+			fo.Weigher = func(k, v int) uint32 {
+				runtime.Gosched()
+				time.Sleep(20 * time.Microsecond)
+				return 1
+			}
+		}
+		c := otter.Must(fo)
 		flightInvocations.Store(0)
 		var stamp atomic.Int64
 		rounds := 5 + r.intn(15)
